@@ -102,13 +102,24 @@ def cases(group):
                     for tolerance in ((1e-12,) if lite else (1e-12, 1e-6)):
                         for n in ns:
                             yield dict(kind=kind, dir=d, X=X, y=y, k=k, mixing=mixing, re=re, tolerance=tolerance, n=n)
+                            if group["label"].startswith("G") and tolerance == 1e-12 and n == ns[-1]:
+                                # the same fit on a USED selector (fitted before, with another count, on other data of the same shape)
+                                yield dict(kind=kind, dir=d, X=X, y=y, k=k, mixing=mixing, re=re, tolerance=tolerance, n=n, prefit=True)
 
 
-def _fit(kind, d, X, y, k, mixing, re, tolerance, n, record=True):
+def _fit(kind, d, X, y, k, mixing, re, tolerance, n, record=True, prefit=False):
     p = dict(k=k, recompute_every=re, tolerance=tolerance, n_to_select=n)
     if kind == "PCovCUR":
         p["mixing"] = mixing
     s = sel.make(kind, d, **p)
+    if prefit:
+        Xo = X[::-1, ::-1].copy() * 0.75 + 0.125 * np.abs(X).max()
+        yo = None if y is None else (y[::-1].copy() * -0.5 + 0.25)
+        s.n_to_select = max(1, n - 1)
+        _, exc0 = sel.fit_quiet(s, Xo, yo)
+        s.n_to_select = n
+        if exc0 is not None:
+            return s, None, exc0
     rec = sel.ScoreRecorder(s) if record else None
     _, exc = sel.fit_quiet(s, X, y)
     return s, rec, exc
@@ -135,7 +146,7 @@ def check(case):
     y = None if case["y"] is None else np.array(case["y"], float)
     k, mixing, re, tolerance, n = case["k"], case["mixing"], case["re"], case["tolerance"], case["n"]
     N = sel.n_items(X, d)
-    s, rec, exc = _fit(kind, d, X, y, k, mixing, re, tolerance, n)
+    s, rec, exc = _fit(kind, d, X, y, k, mixing, re, tolerance, n, prefit=bool(case.get("prefit")))
     if exc is not None:
         return r.fail("crash:%s" % type(exc).__name__, repr(exc))
     idx = [int(i) for i in s.selected_idx_]
